@@ -149,6 +149,11 @@ func (r *Report) Finish() int {
 		}
 	}
 	os.MkdirAll(filepath.Join(VerifDir, "replays"), 0755)
+	if old, _ := filepath.Glob(filepath.Join(VerifDir, "replays", r.ID+"-*.json")); len(old) > 0 {
+		for _, f := range old {
+			os.Remove(f)
+		}
+	}
 	for i := range r.viols {
 		v := &r.viols[i]
 		b, _ := json.MarshalIndent(map[string]any{"property": r.ID, "sig": v.Sig, "desc": v.Desc, "sys": v.Sys, "arg": v.Arg}, "", " ")
